@@ -17,6 +17,8 @@ package main
 
 import (
 	"fmt"
+	"regexp"
+	"unicode/utf8"
 	"hash/fnv"
 	"math"
 	"sort"
@@ -719,6 +721,14 @@ func (g *gen) genLeaf(f *hframe, bad bool) clause {
 			} else {
 				v = strAlphabet[r.Intn(len(strAlphabet))]
 			}
+			if c == "like" || c == "ilike" {
+				if c == "ilike" && !g.allValidUTF8(f, col) {
+					c = "like"
+					fl.Comparator = c
+					toks[len(toks)-1] = "s" + tx.HexS(c)
+				}
+				g.emitLikeOracle(f, col, v, c == "ilike")
+			}
 			fl.Arg = v
 			toks = append(toks, tx.HexS(v))
 		}
@@ -1081,6 +1091,13 @@ func (g *gen) genInstr(f *hframe, cols []colInfo, bad bool) instr {
 			toks = append(toks, "-", "-", "c", tx.CInt(v))
 			break
 		}
+		if c.typ != "s" || !g.allValidUTF8(f, c) || !sameCol(f, c) {
+			v := g.genInt()
+			in.Fn = v
+			toks = append(toks, "-", "-", "c", tx.CInt(v))
+			break
+		}
+		g.emitUpperOracle(f, c)
 		in.SrcCol1 = c.name
 		in.Fn = "ToUpper"
 		toks = append(toks, tx.HexS(c.name), "-", "bi", tx.HexS("ToUpper"))
@@ -1431,6 +1448,7 @@ func (g *gen) genOp() {
 		for i := 0; i < k && len(src.cols) > 0; i++ {
 			names = append(names, src.cols[r.Intn(len(src.cols))].name)
 		}
+		names = dedupNames(names) // duplicate names in one Select are outside the documented use
 		if bad {
 			names = append(names, "nosuch")
 		}
@@ -1495,6 +1513,9 @@ func (g *gen) genOp() {
 		keys := g.genKeyCols(src, bad && r.P(1, 3))
 		null := r.Bool()
 		na := r.Intn(3)
+		if len(keys) == 0 && na == 0 {
+			na = 1 // a frame with rows but no columns is not a meaningful value
+		}
 		aggs := make([]qframe.Aggregation, na)
 		toks := append(append(head, "groupagg", tx.Bool01(null)), nameToks(keys)...)
 		toks = append(toks, tx.Int(na))
@@ -1575,4 +1596,131 @@ func histSection(r *tx.Rng, w *tx.W, size int, opt map[string]string) {
 		}
 		g.genOp()
 	}
+}
+
+// ---------------------------------------------------------------- oracles for external functions
+
+// colStrings returns the distinct non-null cells of a string or enum column of a family member (through the views).
+func colStrings(f *hframe, c colInfo) []string {
+	seen := map[string]bool{}
+	var res []string
+	add := func(p *string) {
+		if p != nil && !seen[*p] {
+			seen[*p] = true
+			res = append(res, *p)
+		}
+	}
+	if c.typ == "s" {
+		if v, err := f.qf.StringView(c.name); err == nil {
+			for i := 0; i < v.Len(); i++ {
+				add(v.ItemAt(i))
+			}
+		}
+	} else if c.typ == "e" {
+		if v, err := f.qf.EnumView(c.name); err == nil {
+			for i := 0; i < v.Len(); i++ {
+				add(v.ItemAt(i))
+			}
+		}
+	}
+	return res
+}
+
+// sameCol reports whether c is a column of f itself (instruction lists may refer to columns created earlier in the list).
+func sameCol(f *hframe, c colInfo) bool {
+	for _, x := range f.cols {
+		if x.name == c.name && x.typ == c.typ {
+			return true
+		}
+	}
+	return false
+}
+
+func (g *gen) allValidUTF8(f *hframe, c colInfo) bool {
+	for _, s := range colStrings(f, c) {
+		if !utf8.ValidString(s) {
+			return false
+		}
+	}
+	return true
+}
+
+// refLike is the documented like/ilike rule written against the Go standard library only.
+func refLike(pat string, ci bool) (func(string) bool, error) {
+	fuzzyStart := strings.HasPrefix(pat, "%")
+	fuzzyEnd := strings.HasSuffix(pat, "%")
+	if regexp.QuoteMeta(pat) != pat {
+		re := pat
+		if fuzzyStart {
+			re = re[1:]
+		} else {
+			re = "^" + re
+		}
+		if fuzzyEnd {
+			re = re[:len(re)-1]
+		} else {
+			re = re + "$"
+		}
+		if ci {
+			re = "(?i)" + re
+		}
+		r, err := regexp.Compile(re)
+		if err != nil {
+			return nil, err
+		}
+		return r.MatchString, nil
+	}
+	core := strings.TrimSuffix(strings.TrimPrefix(pat, "%"), "%")
+	norm := func(s string) string { return s }
+	if ci {
+		norm = strings.ToUpper
+		core = strings.ToUpper(core)
+	}
+	switch {
+	case fuzzyStart && fuzzyEnd:
+		return func(s string) bool { return strings.Contains(norm(s), core) }, nil
+	case fuzzyStart:
+		return func(s string) bool { return strings.HasSuffix(norm(s), core) }, nil
+	case fuzzyEnd:
+		return func(s string) bool { return strings.HasPrefix(norm(s), core) }, nil
+	}
+	if ci {
+		return func(s string) bool { return norm(s) == strings.ToUpper(pat) }, nil
+	}
+	return func(s string) bool { return s == pat }, nil
+}
+
+func (g *gen) emitLikeOracle(f *hframe, c colInfo, pat string, ci bool) {
+	m, err := refLike(pat, ci)
+	if err != nil {
+		g.w.Line("XM", tx.HexS(pat), tx.Bool01(ci), "ERR")
+		return
+	}
+	cells := colStrings(f, c)
+	toks := []string{"XM", tx.HexS(pat), tx.Bool01(ci), tx.Int(len(cells))}
+	for _, s := range cells {
+		toks = append(toks, tx.HexS(s), tx.Bool01(m(s)))
+	}
+	g.w.Line(toks...)
+}
+
+func (g *gen) emitUpperOracle(f *hframe, c colInfo) {
+	cells := colStrings(f, c)
+	toks := []string{"XU", tx.Int(len(cells))}
+	for _, s := range cells {
+		toks = append(toks, tx.HexS(s), tx.HexS(strings.ToUpper(s)))
+	}
+	g.w.Line(toks...)
+}
+
+func dedupNames(names []string) []string {
+	seen := map[string]bool{}
+	out := []string{}
+	for _, n := range names {
+		if !seen[n] {
+			seen[n] = true
+			out = append(out, n)
+		}
+	}
+	return out
 }
